@@ -129,19 +129,51 @@ def r1(F, R):
         pred = A.closure_of_operand(F, froms[0], f["should_fail"])
     if pred is None:
         raise Unverifiable("default should_fail closure")
+    _check_default_predicate(F, R, pred, "default-predicate")
+    # the documented entry `Ext::fail_on_skipped` must end in that default: every predicate that can become `should_fail` on a
+    # way from it (closures it passes on, closures stored by the constructors it calls) is `!tagged @allow.skipped`
+    for eb in F.crate_bodies():
+        if (eb.impl or {}).get("trait") == "writer::Ext" and re.search(r"::fail_on_skipped$", eb.name):
+            found, seen, work = [], set(), [(eb, 0)]
+            while work:
+                cb, d = work.pop()
+                if cb.key in seen:
+                    continue
+                seen.add(cb.key)
+                for _, st in cb.assigns(lambda st: st["rv"]["k"] == "agg" and st["rv"].get("adt") == FOS):
+                    f = dict(zip(st["rv"]["fields"], st["rv"]["ops"]))
+                    c = A.closure_of_operand(F, cb, f["should_fail"])
+                    if c is not None:
+                        found.append(c)
+                for _, t in cb.calls():
+                    for a_ in t["args"]:
+                        c = A.closure_of_operand(F, cb, a_)
+                        if c is not None:
+                            found.append(c)
+                    nb = F.callee_body_impl(t)
+                    if nb is not None and d < 3:
+                        work.append((nb, d + 1))
+            uniq = {c.key: c for c in found}
+            for c in uniq.values():
+                _check_default_predicate(F, R, c, "default-predicate" if c.key == pred.key else "ext-default-predicate")
+            R.check(bool(uniq), "ext-default-predicate/source", eb, f"Ext::fail_on_skipped reaches {len(uniq)} predicate(s), each checked",
+                    "no predicate closure is reachable from `Ext::fail_on_skipped`")
+    R.floor(22)
+
+
+def _check_default_predicate(F, R, pred, pre):
     pb = F.nested(pred)
     anys = [(b, s, t) for b in pb for s, t in b.calls(lambda t: callee_is(t, r"Iterator::(any|find|position|all)$"))]
-    R.check(len(anys) == 1 and callee_is(anys[0][2], r"Iterator::any$"), "default-predicate/search", pred, "tags.any(..)", f"{len(anys)} searches in the default predicate")
+    R.check(len(anys) == 1 and callee_is(anys[0][2], r"Iterator::any$"), pre + "/search", pred, "tags.any(..)", f"{len(anys)} searches in the default predicate")
     if len(anys) == 1:
         b, s, t = anys[0]
-        tags.check_tag_union(F, R, b, t["args"][0], "default-predicate/tags", s, "allow.skipped tag")
+        tags.check_tag_union(F, R, b, t["args"][0], pre + "/tags", s, "allow.skipped tag")
         strs = [const_str(a) for nb in pb for _, tt in nb.calls() for a in tt["args"] if const_str(a) is not None] + \
                [const_str(op) for nb in pb for _, stt in nb.assigns() for op in A.rvalue_operands(stt["rv"]) if const_str(op) is not None]
-        R.check(strs == ["allow.skipped"], "default-predicate/literal", s, '== "allow.skipped"', f"default predicate compares with {strs}")
+        R.check(strs == ["allow.skipped"], pre + "/literal", s, '== "allow.skipped"', f"default predicate compares with {strs}")
         sd = pred.single_def(0)
         neg = bool(sd and sd[1] == "assign" and sd[2]["rv"]["k"] == "un" and sd[2]["rv"]["op"] == "Not" and op_local(sd[2]["rv"]["a"]) == t["dest"]["l"])
-        R.check(neg, "default-predicate/negated", pred, "should_fail = !tagged", "the default predicate is not the negation of `tagged @allow.skipped`")
-    R.floor(22)
+        R.check(neg, pre + "/negated", pred, "should_fail = !tagged", "the default predicate is not the negation of `tagged @allow.skipped`")
 
 
 def T_site(F, e):
